@@ -135,7 +135,10 @@ Theorem eval_expected_body scoped with_self s aw :
   eval_fn_call (typed_names s) (expected_body scoped with_self s aw) = Some (expected_event scoped with_self s aw).
 Proof.
   unfold names_usable. intros H Hself. apply andb_true_iff in H as [H H3]. apply andb_true_iff in H as [_ H2].
-  apply nodup_str_NoDup in H2. apply negb_true_iff in H3.
+  apply nodup_str_NoDup in H2. apply NoDup_map_inv in H2. apply negb_true_iff in H3.
+  assert (H3' : str_mem (s_name s) (typed_names s) = false).
+  { apply str_mem_false_In. intros Hin. apply str_mem_false_In in H3. apply H3, in_map, Hin. }
+  clear H3. rename H3' into H3.
   unfold expected_body, eval_fn_call, expected_event.
   assert (Hra : read_args ((if with_self then [TId "self"; comma] else []) ++
                            join [comma] (map (fun n => [TId n]) (typed_names s)))
